@@ -18,6 +18,7 @@ class Scope:
     def __init__(self, kind, parent, file, label=None):
         self.kind, self.parent, self.file, self.label = kind, parent, file, label   # kind: file|label|anon|macro
         self.defs = {}          # name -> Def (directly inside this block)
+        self.dead_names = set() # names defined only in untaken branches of this block
         self.children = []      # label / anon scopes directly inside
         if parent is not None:
             parent.children.append(self)
@@ -133,7 +134,7 @@ class Gen:
         rng = self.rng
         if unique or rng.random() < 0.25:
             return self.p.fresh_name(rng)
-        cands = [n for n in NAMES if n not in scope.defs]
+        cands = [n for n in NAMES if n not in scope.defs and n not in scope.dead_names]
         if not cands:
             return self.p.fresh_name(rng)
         return rng.choice(cands)
@@ -155,6 +156,13 @@ class Gen:
                 ln = self.emit(file, ".%s %s = $%04x" % (kind, name, tag))
                 d = self.add_def(name, kind, scope, file, ln, len(kind) + 2, assembled)
                 d.tags.add(tag)
+                if kind == "var" and assembled and rng.random() < 0.6:
+                    # assigned a second time: still the same symbol
+                    ln = self.emit(file, ".var %s = %s + 1" % (name, name))
+                    d.tags.add(tag + 1)
+                    self.p.occs.append(Occ(file, ln, 5, name, "redef", d=d))
+                    self.p.occs.append(Occ(file, ln, 5 + len(name) + 3, name, "reuse", d=d))
+                    self.p.features.add("var_reassigned")
             elif r < 0.42 and not in_macro:
                 name = self.p.fresh_name(rng, "s")
                 s = "".join(rng.choice("ABCDEFGHJKLMNPQRSTUVWXYZ") for _ in range(2)) + str(self.p.counter % 10)
@@ -177,7 +185,13 @@ class Gen:
                     sub = Scope("anon", scope, file)
                     self.emit(file, "nop")
                 self.p.features.add("nested")
+                brace = (file, len(self.p.lines[file]) - 2, len(self.p.lines[file][-2]) - 1)
                 self.gen_block(file, sub, depth + 1, budget - 1, assembled, in_macro)
+                if rng.random() < 0.35 and assembled and not in_macro:
+                    ln = self.emit(file, "jmp -")
+                    self.p.occs.append(Occ(file, ln, 4, "-", "anon_label", note=brace))
+                    self.p.occs.append(Occ(brace[0], brace[1], brace[2], "{", "brace", note=brace))
+                    self.p.features.add("anon_label")
                 self.emit(file, "}")
             elif r < 0.67 and not in_macro and not unique_only and assembled and depth < 3:
                 taken_first = rng.random() < 0.5
@@ -203,8 +217,14 @@ class Gen:
             # not assembled by the build: only globally unique names, so that no scoping rule is needed to know
             # what an occurrence means
             for _ in range(self.rng.randrange(1, 3)):
-                if self.rng.random() < 0.35:
-                    name = self.p.fresh_name(self.rng)
+                if self.rng.random() < 0.4:
+                    pool = [n for n in NAMES if n not in scope.defs and n not in scope.dead_names]
+                    if pool and self.rng.random() < 0.4:
+                        name = self.rng.choice(pool)     # may shadow an outer definition -- in the analysed run only
+                        scope.dead_names.add(name)
+                        self.p.features.add("untaken_shadowing_definition")
+                    else:
+                        name = self.p.fresh_name(self.rng)
                     ln = self.emit(file, "%s: nop" % name)
                     self.add_def(name, "label", Scope("dead", scope, file), file, ln, 0, assembled=False)
                 else:
@@ -613,10 +633,12 @@ def ground_truth(p, asm):
     for o in p.occs:
         if o.role == "def":
             o.truth = "unbound" if (o.d.kind == "param" and not o.d.assembled) else o.d
-        elif o.role in ("invoke", "imp_name", "imp_alias", "defined", "arg"):
+        elif o.role in ("invoke", "imp_name", "imp_alias", "defined", "arg", "redef", "reuse"):
             o.truth = o.d       # structural: unique names / named file
         elif o.role == "ns_def":
             o.truth = "none"
+        elif o.role in ("anon_label", "brace"):
+            o.truth = "brace"
         elif o.role == "param_uninvoked":
             o.truth = "unbound"
     for u in p.uses:
